@@ -66,7 +66,8 @@ theorem set_refines (T : Nat) (hT : legalThreshold T = true) (D : DigestFn (r + 
     cases old <;> simp
 
 /-- Removal: key-not-found for an absent key (and nothing else can go wrong); otherwise returns the
-    stored key and value and the dictionary loses exactly that key. -/
+    stored key and value and the dictionary loses exactly that key; the count goes down by exactly
+    one (stated without truncated subtraction: `m'.count + 1 = m.count`). -/
 theorem remove_refines (T : Nat) (hT : legalThreshold T = true) (D : DigestFn (r + 1)) (cfg : MCfg) (m : OMap r)
     (hcfg : CfgOk cfg T m) (h : MapInv T D m) (k : MKey) (hk : KeyOk T (r + 1) D k) (c : Ctx) (hc : CtxOk m c) :
     match dictLookup m.toList k with
@@ -75,7 +76,7 @@ theorem remove_refines (T : Nat) (hT : legalThreshold T = true) (D : DigestFn (r
       ∃ k0 m' c', m.remove cfg k c = .ok (k0, v, m', c') ∧ k0.same k = true ∧
         (∀ k', KeyOk T (r + 1) D k' →
            dictLookup m'.toList k' = if k'.same k then none else dictLookup m.toList k') ∧
-        m'.count = m.count - 1 ∧ MapInv T D m' ∧ CtxOk m' c' ∧
+        m'.count + 1 = m.count ∧ MapInv T D m' ∧ CtxOk m' c' ∧
         m'.rootID = m.rootID ∧ m'.ty = m.ty ∧ m'.seed = m.seed := by
   have hs := OMap.remove_spec hT hcfg h hk c hc
   cases hd : dictLookup m.toList k with
@@ -84,9 +85,13 @@ theorem remove_refines (T : Nat) (hT : legalThreshold T = true) (D : DigestFn (r
     exact hs.1 ((dictLookup_none_iff h.allKeyOk hk).mp hd)
   | some v =>
     simp only
-    obtain ⟨m', c', heq, hp⟩ := hs.2 v (mem_of_dictLookup_some h.allKeyOk hk hd)
+    have hmem := mem_of_dictLookup_some h.allKeyOk hk hd
+    obtain ⟨m', c', heq, hp⟩ := hs.2 v hmem
     obtain ⟨_, _, _, e4⟩ := hp.eff.spec h.allKeyOk h.distinct hk
-    exact ⟨k, m', c', heq, MKey.same_self k, e4, hp.count, hp.inv, hp.ctx, hp.rootID, hp.ty, hp.seed⟩
+    have hpos : 1 ≤ m.count := by
+      rw [h.count_eq]; exact List.length_pos_of_mem hmem
+    exact ⟨k, m', c', heq, MKey.same_self k, e4, by rw [hp.count]; omega, hp.inv, hp.ctx, hp.rootID, hp.ty,
+      hp.seed⟩
 
 /-- Bulk pop: every pair exactly once (in reverse iteration order), the map ends up empty. -/
 theorem pop_refines (T : Nat) (hT : legalThreshold T = true) (D : DigestFn (r + 1)) (m : OMap r)
